@@ -1,17 +1,29 @@
 (** C10 - Group aggregations and projections equal their per-group definitions.
-    Only statements here; proofs are in proofs/GroupProofs.v (numpy list lemmas in
-    proofs/NpProofs.v).  The model functions ([Group.sum], [Group.nb_persons], ...) are the
-    ones the correspondence check runs (corr/Corr_C10.v); the vocabulary of the
-    right-hand sides ([wf_pop], [members], [members_with_role], [in_role], [zsum], ...) is
-    in model/GroupSpec.v.
+    Only statements here; proofs are in proofs/GroupProofs.v, proofs/GroupRankProofs.v
+    (numpy list lemmas in proofs/NpProofs.v).  The model functions ([Group.sum],
+    [Group.nb_persons], [Group.reduce_with], ...) are the ones the correspondence check
+    runs (corr/Corr_C10.v); the vocabulary of the right-hand sides ([wf_pop], [members],
+    [members_with_role], [in_role], [zsum], [earlier_in_group], [role_unique_in],
+    [ext_min_list], ...) is in model/GroupSpec.v and mentions no bincount / argsort /
+    position counter.
 
     Every group-level result is given as the WHOLE list
         map (fun g => <per-group definition on exactly the members of g>) (seq 0 count)
     i.e. one element per group g = 0 .. count-1 of the simulation -- groups without any
     member (leading, middle, trailing) included -- for every population size, membership
-    map [g_ids] (any storage order), role map and value array. *)
-From Coq Require Import String ZArith List Bool Arith.
-From Verif Require Import Base Np Group GroupSpec GroupProofs.
+    map [g_ids] (any storage order), role map and value array.
+
+    Functions that read ordered_members_map (a numpy.argsort, which is not stable) are
+    specified for EVERY permutation [mm] that sorts the group indices
+    ([sorting_perm_nat (g_ids p) mm]); [executed_instances] shows that the functions the
+    correspondence evaluates are the instances at the stable insertion sort, and the
+    harness checks that the implementation's own map is such a permutation.
+
+    min / max / all / value_nth_person / get_rank / members_position need at least one
+    person: on a population without persons the code raises ValueError (numpy.max of an
+    empty array), see [no_person_raises]. *)
+From Coq Require Import String ZArith List Bool Arith Lia Sorting.Permutation Sorting.Sorted.
+From Verif Require Import Base Np Group GroupSpec GroupProofs GroupRankProofs.
 Import ListNotations.
 Open Scope nat_scope.
 
@@ -32,6 +44,108 @@ Theorem nb_persons_spec : forall p role,
 Proof. exact nb_persons_ok. Qed.
 Print Assumptions nb_persons_spec.
 
+(** any(array, role) on a boolean (more generally non-negative) array: some member
+    [holding the role] has a true value; false for a group without such a member. *)
+Theorem any_spec : forall p array role,
+  wf_pop p -> length array = npersons p -> Forall (fun v => (0 <= v)%Z) array ->
+  any p array role =
+  Ok (map (fun g => existsb (fun i => (0 <? nth i array 0)%Z) (members_with_role p role g))
+          (seq 0 (g_count p))).
+Proof. exact any_ok. Qed.
+Print Assumptions any_spec.
+
+(** all(array, role): every member [holding the role] has a non-zero value; true for a
+    group without such a member. *)
+Theorem all_spec : forall mm p array role,
+  wf_pop p -> sorting_perm_nat (g_ids p) mm -> length array = npersons p -> 0 < npersons p ->
+  all_with mm p array role =
+  Ok (map (fun g => forallb (fun i => truthy (nth i array 0%Z)) (members_with_role p role g))
+          (seq 0 (g_count p))).
+Proof. exact all_ok. Qed.
+Print Assumptions all_spec.
+
+(** max / min (array, role): the fold of maximum / minimum over exactly the values of the
+    members [holding the role], from the neutral element -inf / +inf ... *)
+Theorem max_spec : forall mm p array role,
+  wf_pop p -> sorting_perm_nat (g_ids p) mm -> length array = npersons p -> 0 < npersons p ->
+  max_with mm p array role =
+  Ok (map (fun g => ext_max_list (map (fun i => nth i array 0%Z) (members_with_role p role g)))
+          (seq 0 (g_count p))).
+Proof. exact max_ok. Qed.
+Print Assumptions max_spec.
+
+Theorem min_spec : forall mm p array role,
+  wf_pop p -> sorting_perm_nat (g_ids p) mm -> length array = npersons p -> 0 < npersons p ->
+  min_with mm p array role =
+  Ok (map (fun g => ext_min_list (map (fun i => nth i array 0%Z) (members_with_role p role g)))
+          (seq 0 (g_count p))).
+Proof. exact min_ok. Qed.
+Print Assumptions min_spec.
+
+(** ... and that fold is, independently of the order of the members, the greatest lower
+    (least upper) bound, attained by a member; the neutral element for no member. *)
+Theorem ext_min_list_is_glb : forall l,
+  match l with
+  | [] => ext_min_list l = PInf
+  | _ => exists m, ext_min_list l = Fin m /\ In m l /\ forall w, In w l -> (m <= w)%Z
+  end.
+Proof. exact ext_min_list_glb. Qed.
+Print Assumptions ext_min_list_is_glb.
+
+Theorem ext_max_list_is_lub : forall l,
+  match l with
+  | [] => ext_max_list l = NInf
+  | _ => exists m, ext_max_list l = Fin m /\ In m l /\ forall w, In w l -> (w <= m)%Z
+  end.
+Proof. exact ext_max_list_lub. Qed.
+Print Assumptions ext_max_list_is_lub.
+
+(** The general reducer (GroupPopulation.reduce), for any reducer with a right-neutral
+    element: the left fold over exactly the members [holding the role], in storage order. *)
+Theorem reduce_spec : forall (A : Type) mm p (array : list A) (f : A -> A -> A) neutral role,
+  wf_pop p -> sorting_perm_nat (g_ids p) mm -> length array = npersons p -> 0 < npersons p ->
+  (forall x, f x neutral = x) ->
+  reduce_with mm p array f neutral role =
+  Ok (map (fun g => fold_left (fun acc i => f acc (nth i array neutral))
+                              (members_with_role p role g) neutral)
+          (seq 0 (g_count p))).
+Proof. exact @reduce_ok. Qed.
+Print Assumptions reduce_spec.
+
+(** members_position: the position of person i is the number of persons stored before i
+    that belong to the same group (whatever the group indices are). *)
+Theorem positions_spec : forall p,
+  0 < npersons p ->
+  members_position p = Ok (map (earlier_in_group p) (seq 0 (npersons p))).
+Proof. exact members_position_ok. Qed.
+Print Assumptions positions_spec.
+
+(** value_nth_person(n, array, default): the value of the n-th member of the group in
+    storage order, the default for a group with at most n members. *)
+Theorem value_nth_person_spec : forall (A : Type) mm p n (array : list A) d,
+  wf_pop p -> sorting_perm_nat (g_ids p) mm -> length array = npersons p -> 0 < npersons p ->
+  value_nth_person_with mm p (Z.of_nat n) array d =
+  Ok (map (fun g => match nth_error (members p g) n with
+                    | Some i => nth i array d
+                    | None => d
+                    end) (seq 0 (g_count p))).
+Proof. exact @value_nth_person_ok. Qed.
+Print Assumptions value_nth_person_spec.
+
+(** value_from_person(array, role, default) for a role declared unique (max = 1) and held
+    by at most one member of every group: the value of that member, the default for a
+    group where nobody holds the role. *)
+Theorem value_from_person_spec : forall (A : Type) mm p (array : list A) r d,
+  wf_pop p -> sorting_perm_nat (g_ids p) mm -> length array = npersons p ->
+  role_max (g_entity p) r = Some 1 -> role_unique_in p r ->
+  value_from_person_with mm p array r d =
+  Ok (map (fun g => match members_with_role p (Some r) g with
+                    | [i] => nth i array d
+                    | _ => d
+                    end) (seq 0 (g_count p))).
+Proof. exact @value_from_person_ok. Qed.
+Print Assumptions value_from_person_spec.
+
 (** project(array, role): person i receives the value of the group it belongs to
     (0 when a role is given and the person does not hold it). *)
 Theorem project_spec : forall p array role,
@@ -42,8 +156,146 @@ Theorem project_spec : forall p array role,
 Proof. exact project_ok. Qed.
 Print Assumptions project_spec.
 
+(** get_rank(entity, criteria, condition), for every result the two numpy.argsort calls
+    may return ([sort1] on rows with ties, [sort2]) and every members map: persons not
+    satisfying the condition get -1; inside every group, the ranks of the members
+    satisfying the condition are a permutation of 0..k-1 and a strictly smaller criterion
+    gets a strictly smaller rank (ties unspecified). *)
+Theorem rank_permutation : forall sort1 sort2,
+  (forall row, sorting_perm_ext row (sort1 row)) ->
+  (forall l, sorting_perm_nat l (sort2 l)) ->
+  forall p mm (crit : list Z) (cond : list bool),
+  wf_pop p -> sorting_perm_nat (g_ids p) mm ->
+  length crit = npersons p -> length cond = npersons p -> 0 < npersons p ->
+  exists rk,
+    get_rank_with sort1 sort2 mm p crit cond = Ok rk /\
+    length rk = npersons p /\
+    (forall i, i < npersons p -> nth i cond false = false -> nth i rk 0%Z = (-1)%Z) /\
+    forall g, g < g_count p ->
+      let M := filter (fun i => nth i cond false) (members p g) in
+      Permutation (map (fun i => nth i rk 0%Z) M) (map Z.of_nat (seq 0 (length M))) /\
+      forall i j, In i M -> In j M -> (nth i crit 0 < nth j crit 0)%Z ->
+                  (nth i rk 0 < nth j rk 0)%Z.
+Proof. exact get_rank_ok. Qed.
+Print Assumptions rank_permutation.
+
+(** Chained projectors: population.path1.path2 resolves to the concatenation of the two
+    chains, and applying it is applying path2's chain, then path1's chain to the result. *)
+Theorem chain_is_composition : forall sim start path1 path2 c1 mid c2 last,
+  resolve sim start path1 [] = Ok (c1, mid) ->
+  resolve sim mid path2 [] = Ok (c2, last) ->
+  resolve sim start (path1 ++ path2) [] = Ok (c2 ++ c1, last) /\
+  forall x, transform_and_bubble_up sim (c2 ++ c1) x =
+            bind (transform_and_bubble_up sim c2 x) (transform_and_bubble_up sim c1).
+Proof. exact chain_composition. Qed.
+Print Assumptions chain_is_composition.
+
 Theorem chain_bubbles_up : forall sim c1 c2 x,
   transform_and_bubble_up sim (c1 ++ c2) x =
   bind (transform_and_bubble_up sim c1 x) (transform_and_bubble_up sim c2).
 Proof. exact bubble_app. Qed.
 Print Assumptions chain_bubbles_up.
+
+(** Every group-level result that is returned has exactly one element per group of the
+    simulation (also for n < 0, non-unique roles, ... whenever a value is returned). *)
+Theorem length_is_group_count : forall p mm array role,
+  wf_pop p -> sorting_perm_nat (g_ids p) mm -> length array = npersons p ->
+  (forall out, sum p array role = Ok out -> length out = g_count p) /\
+  (forall out, any p array role = Ok out -> length out = g_count p) /\
+  (forall out, nb_persons p role = Ok out -> length out = g_count p) /\
+  (forall out, all_with mm p array role = Ok out -> length out = g_count p) /\
+  (forall out, max_with mm p array role = Ok out -> length out = g_count p) /\
+  (forall out, min_with mm p array role = Ok out -> length out = g_count p) /\
+  (forall n d out, value_nth_person_with mm p n array d = Ok out -> length out = g_count p) /\
+  (forall out, value_from_first_person_with mm p array = Ok out -> length out = g_count p) /\
+  (forall r d out, value_from_person_with mm p array r d = Ok out -> length out = g_count p).
+Proof. exact lengths_ok. Qed.
+Print Assumptions length_is_group_count.
+
+(** The functions evaluated by the correspondence are the instances of the [_with]
+    functions at the stable sorts, which satisfy the hypotheses above. *)
+Theorem executed_instances : forall p,
+  sorting_perm_nat (g_ids p) (ordered_members_map p) /\
+  (forall row, sorting_perm_ext row (argsort_ext row)) /\
+  (forall l, sorting_perm_nat l (argsort_nat l)) /\
+  all p = all_with (ordered_members_map p) p /\
+  max p = max_with (ordered_members_map p) p /\
+  min p = min_with (ordered_members_map p) p /\
+  (forall A, @value_nth_person A p = value_nth_person_with (ordered_members_map p) p) /\
+  value_from_first_person p = value_from_first_person_with (ordered_members_map p) p /\
+  (forall A, @value_from_person A p = value_from_person_with (ordered_members_map p) p) /\
+  get_rank p = get_rank_with argsort_ext argsort_nat (ordered_members_map p) p.
+Proof. exact executed_instances_ok. Qed.
+Print Assumptions executed_instances.
+
+(** Without any person the position-based primitives raise (numpy.max of an empty array). *)
+Theorem no_person_raises : forall p,
+  npersons p = 0 -> members_position p = Err EValue.
+Proof. exact empty_positions_err. Qed.
+Print Assumptions no_person_raises.
+
+(** ** Non-vacuity: a population satisfying all the hypotheses at once.
+    6 persons, 5 groups of which group 2 (middle) and group 4 (trailing) have no member,
+    memberships interleaved; roles: 0 = parent with sub-roles 1 (first_parent, max 1) and
+    2 (second_parent, max 1), 3 = child. *)
+Definition ex_entity : gentity :=
+  Build_gentity "household"
+    [ Build_role_info "parent" (Some 2) [1; 2] true;
+      Build_role_info "first_parent" (Some 1) [] false;
+      Build_role_info "second_parent" (Some 1) [] false;
+      Build_role_info "child" None [] true ] [].
+Definition ex_p : gpop := Build_gpop ex_entity 5 [1; 0; 1; 3; 0; 1] [1; 1; 3; 3; 3; 2].
+Definition ex_vals : list Z := [10; 20; -30; 40; 50; 60]%Z.
+(** a sorting permutation that is NOT the stable one ([1;4;0;2;5;3]) *)
+Definition ex_mm : list nat := [4; 1; 5; 0; 2; 3].
+
+Example ex_wf : wf_pop ex_p.
+Proof. split; [|reflexivity]. repeat (constructor; [cbn; lia|]). constructor. Qed.
+
+Example ex_mm_sorts : sorting_perm_nat (g_ids ex_p) ex_mm /\ ex_mm <> ordered_members_map ex_p.
+Proof.
+  split; [split|discriminate].
+  - apply NoDup_Permutation.
+    + repeat (constructor; [cbn; intuition discriminate|]). constructor.
+    + apply seq_NoDup.
+    + intros x. cbn. intuition.
+  - repeat (constructor; [|repeat (constructor; [cbn; lia|]); constructor]). constructor.
+Qed.
+
+Example ex_unique : role_max (g_entity ex_p) 1 = Some 1 /\ role_unique_in ex_p 1.
+Proof.
+  split; [reflexivity|]. intros g Hg.
+  do 5 (destruct g as [|g]; [vm_compute; lia|]). cbn in Hg. lia.
+Qed.
+
+Example ex_sum :
+  sum ex_p ex_vals None = Ok [70; 40; 0; 40; 0]%Z /\
+  sum ex_p ex_vals (Some 0) = Ok [20; 70; 0; 0; 0]%Z /\
+  nb_persons ex_p (Some 3) = Ok [1; 1; 0; 1; 0]%Z /\
+  any ex_p [1; 0; 0; 0; 0; 0]%Z None = Ok [false; true; false; false; false] /\
+  project ex_p [7; 8; 9; 10; 11]%Z (Some 3) = Ok [0; 0; 8; 10; 7; 0]%Z.
+Proof. repeat split. Qed.
+
+Example ex_reduce :
+  min_with ex_mm ex_p ex_vals None = Ok [Fin 20; Fin (-30); PInf; Fin 40; PInf] /\
+  max_with ex_mm ex_p ex_vals (Some 0) = Ok [Fin 20; Fin 60; NInf; NInf; NInf] /\
+  all_with ex_mm ex_p [1; 1; 0; 1; 1; 1]%Z None = Ok [true; false; true; true; true] /\
+  members_position ex_p = Ok [0; 0; 1; 0; 1; 2].
+Proof. repeat split. Qed.
+
+Example ex_select :
+  value_nth_person_with ex_mm ex_p 1%Z ex_vals (-1)%Z = Ok [50; -30; -1; -1; -1]%Z /\
+  value_from_person_with ex_mm ex_p ex_vals 1 (-1)%Z = Ok [20; 10; -1; -1; -1]%Z.
+Proof. repeat split. Qed.
+
+Example ex_rank :
+  get_rank ex_p [5; 7; 5; 1; 3; 2]%Z [true; true; true; true; true; false] = Ok [0; 1; 1; 0; 0; -1]%Z.
+Proof. reflexivity. Qed.
+
+Definition ex_sim : simulation := Build_simulation "person" [ex_p].
+Example ex_chain :
+  resolve ex_sim PersonPop ["household"%string] [] = Ok ([EntityToPerson (GroupPop 0)], GroupPop 0) /\
+  resolve ex_sim (GroupPop 0) ["first_parent"%string] [] = Ok ([UniqueRoleToEntity 0 1], PersonPop) /\
+  transform_and_bubble_up ex_sim [UniqueRoleToEntity 0 1; EntityToPerson (GroupPop 0)] ex_vals
+    = Ok [10; 20; 10; 0; 20; 10]%Z.
+Proof. repeat split. Qed.
